@@ -405,6 +405,141 @@ class Scenarios:
         out.append([a, b])
         return out
 
+    @staticmethod
+    def r04():
+        """flows / amounts remaining with a partly filled plate, a withdrawal, a remove step and a transfer inside the plate"""
+        w = Substance.liquid('water', 18.0153, 1)
+        s = Substance.solid('salt', 58.44)
+        stock = Container('stock', initial_contents=[(w, '10 mL'), (s, '0.7777 mmol')])
+        waste = Container('waste')
+        p = Plate('P', '500 uL', rows=2, columns=3)
+        r = Recipe().uses(stock, waste, p)
+        r.start_stage('s1')
+        r.transfer(stock, p[2], '37.3 uL')
+        r.transfer(stock, p[1, 2:3], '11.7 uL')
+        r.end_stage('s1')
+        r.start_stage('s2')
+        r.transfer(p[2, 1], waste, '5.5 uL')
+        r.remove(p[2], w)
+        r.end_stage('s2')
+        r.start_stage('s3')
+        r.transfer(p[1, 2:3], p[2, 2:3], '3.3 uL')
+        r.end_stage('s3')
+        res = r.bake()
+        out = [res['P'], res['stock'], res['waste']]
+        for tf in ('all', 's1', 's2', 's3'):
+            for obj in (stock, waste, p):
+                try:
+                    out.append(r.get_container_flows(obj, tf, 'mg'))
+                    out.append(r.get_amount_remaining(obj, tf, 'uL', mode='before'))
+                    out.append(r.get_amount_remaining(obj, tf, 'uL'))
+                except ValueError:
+                    out.append('ValueError')
+            for sub in (w, s):
+                try:
+                    out.append(r.get_substance_used(sub, tf, 'umol', destinations=[p]))
+                except ValueError:
+                    out.append('ValueError')
+        return out
+
+    @staticmethod
+    def r05():
+        """solution steps with a container solvent, a second solution from it, dilute with a new solvent at the current
+        concentration (no-op) and a fill"""
+        w = Substance.liquid('water', 18.0153, 1)
+        d = Substance.liquid('dmso', 78.13, 1.1)
+        s = Substance.solid('salt', 58.44)
+        buf = Container('buffer', '200 mL', [(w, '100 mL'), (d, '5 mL')])
+        r = Recipe().uses(buf)
+        s1 = r.create_solution(s, buf, 's1', concentration='0.25 M', total_quantity='20 mL')
+        s2 = r.create_solution_from(s1, s, '0.05 M', w, '10 mL', 's2')
+        r.fill_to(s2, w, '12 mL')
+        res = r.bake()
+        return [res['buffer'], res['s1'], res['s2'], sorted(res), r.get_container_flows(buf, unit='mL'),
+                r.get_substance_used(s, unit='mg', destinations=[s1, s2]), r.get_amount_remaining(s1, unit='mL')]
+
+    @staticmethod
+    def p08():
+        """list selectors and slices of slices"""
+        w = Substance.liquid('water', 18.0153, 1)
+        s = Substance.solid('salt', 58.44)
+        p = Plate('p', '500 uL', rows=3, columns=4)
+        q = Plate('q', '500 uL', rows=3, columns=4)
+        src = Container('src', '50 mL', [(w, '20 mL'), (s, '1 g')])
+        src, p = Plate.transfer(src, p, '100 uL')
+        p, q = Plate.transfer(p[['A:1', 'C:4', 'B:2']], q[['B:1', 'A:3', 'C:2']], '10 uL')
+        src, q = Plate.transfer(src, q[[(1, 1), 'C:3']], '7 uL')
+        q, c = Container.transfer(q[['B:1', 'A:3']], Container('c', '5 mL'), '2 uL')
+        sub = p[2:3, 2:4][0:1, 1:3]
+        a = sub.remove(w)
+        b = p[1:3][1:2].fill_to(w, '150 uL')
+        return [p, q, c, src, a, b, sub.shape, sub.get_volumes(unit='uL'), p[2:3, 2:4][0:2, 0:1].get_volumes(s, 'uL'),
+                q.get_moles(s, 'umol'), q.get_moles([s, w], 'mmol'), q[['B:1', 'A:3']].get_volumes(unit='uL')]
+
+    @staticmethod
+    def c11():
+        """enzymes in mixtures: transfers in every unit family, fill, remove by kind, observers"""
+        w = Substance.liquid('water', 18.0153, 1)
+        s = Substance.solid('salt', 58.44)
+        e = Substance.enzyme('lip', '45.5 U/mg')
+        a = Container('a', '100 mL', [(w, '5 mL'), (s, '100 mg'), (e, '50 U')])
+        b = Container('b', '100 mL', [(e, '5 U')])
+        out = []
+        for q in ('1.5 mL', '300 mg', '2 mmol', '7 U', '2500 uL', '0.1 g'):
+            a, b = Container.transfer(a, b, q)
+            out += [a, b]
+        for f in (lambda: a.fill_to(w, '80 mL'), lambda: a.fill_to(w, '70 g'), lambda: b.remove(Substance.ENZYME), lambda: b.remove(e),
+                  lambda: a.get_concentration(e, 'U/mL'), lambda: a.get_concentration(s, 'mmol/g'),
+                  lambda: a.get_concentration(w, '%v/v'), lambda: b.get_volume('mL'), lambda: a.has_liquid()):
+            try:
+                out.append(f())
+            except ValueError:
+                out.append('ValueError')
+        return out
+
+    @staticmethod
+    def c12():
+        """dilute: every unit family, a third component, renaming, refusals"""
+        w = Substance.liquid('water', 18.0153, 1)
+        d = Substance.liquid('dmso', 78.13, 1.1)
+        s = Substance.solid('salt', 58.44)
+        a = Container('a', '500 mL', [(w, '5 mL'), (s, '300 mg'), (d, '2 mL')])
+        out = []
+        for c in ('0.3 M', '20 mg/mL', '2 %w/w', '1 %w/v', '0.4 mmol/g', '0.5 mol/kg', '3 mg/g', '0.01 mol/mol'):
+            for solvent in (w, d):
+                try:
+                    out.append(a.dilute(s, c, solvent))
+                except ValueError:
+                    out.append('ValueError')
+        out.append(a.dilute(d, '10 %v/v', w, 'dd'))
+        cur = a.get_concentration(s, 'M')
+        out.append(a.dilute(s, f'{cur} M', Substance.liquid('etoh', 46.07, 0.789)))
+        return out
+
+    @staticmethod
+    def c13():
+        """solution builders: container solvents holding an enzyme / the solute, mole totals, percent forms"""
+        w = Substance.liquid('water', 18.0153, 1)
+        s = Substance.solid('salt', 58.44)
+        k = Substance.solid('kcl', 74.55)
+        e = Substance.enzyme('lip', '45.5 U/mg')
+        sv = Container('sv', '1 L', [(w, '500 mL'), (e, '20 U'), (s, '1 g')])
+        out = []
+        for f in (lambda: Container.create_solution(k, sv, 'x', concentration='2 %w/w', total_quantity='50 g'),
+                  lambda: Container.create_solution(k, sv, 'x', concentration='0.1 M', total_quantity='40 mL'),
+                  lambda: Container.create_solution([k, s], w, 'x', concentration=['0.5 M', '0.2 M'], quantity=['1 g', '0.5 g']),
+                  lambda: Container.create_solution([k, s], w, 'x', quantity=['1 g', '0.5 g'], total_quantity='30 mL'),
+                  lambda: Container.create_solution(s, w, 'x', concentration='3 %w/v', total_quantity='2 mol')):
+            try:
+                out.append(f())
+            except ValueError:
+                out.append('ValueError')
+        stock = Container.create_solution(s, sv, 'stock', concentration='1 M', total_quantity='100 mL')[1]
+        out.append(Container.create_solution_from(stock, s, '0.2 M', sv, '30 mL', 'y'))
+        out.append(Container.create_solution_from(stock, s, '1 %w/w', w, '0.5 mol', 'y'))
+        out.append(Container.create_solution_from(stock, s, '5 mg/mL', w, '25 g', 'y'))
+        return out
+
     # ------------------------------------------------------------------ instruction text
     @staticmethod
     def t01():
